@@ -159,6 +159,8 @@ type rtResult struct {
 	Narrow  int       `json:"narrow"`  // conditions for which the real code consulted fewer shards than all
 	AsSpec  int       `json:"as_spec"` // conditions whose consulted set equals the specification's sound rule
 	Diverge int       `json:"diverge"` // conditions with at least one matching row outside the consulted set
+	f4      string
+	f4n     int
 }
 
 var rtFindingOf = map[string]string{
@@ -316,8 +318,10 @@ type rtEnv struct {
 	pw    *coordinator.PointsWriter
 	store *rtStore
 	csm   *coordinator.ClusterShardMapper
-	// per row: the shard it was written to (0 = rejected)
+	// per row: the shard it was written to (0 = rejected); extra: other shards the same row reached
+	// in the batch write (only through known finding F-C11-4)
 	wshard []uint64
+	extra  map[int]uint64
 	crow   []rtCRow
 }
 
@@ -528,6 +532,44 @@ func (e *rtEnv) hashKey(i int) string {
 	return strings.Join(parts, ",")
 }
 
+// deviation model "stale_group_cache": the shard each row of a batch reaches when the writer keeps the
+// previous row's shard group as long as it contains the timestamp (0 = rejected / not predicted)
+func (e *rtEnv) staleCachePrediction(order []int) map[int]uint64 {
+	out := map[int]uint64{}
+	if e.args.Type != "range" {
+		return out
+	}
+	rp, _ := e.data.RetentionPolicy(rtDB, rtRP)
+	msti, _ := e.mstInfo()
+	var pre *meta2.ShardGroupInfo
+	for _, i := range order {
+		ts := time.Unix(0, e.crow[i].t).UTC()
+		if pre == nil || !pre.Contains(ts) {
+			pre = nil
+			for gi := len(rp.ShardGroups) - 1; gi >= 0; gi-- { // the latest group containing ts
+				if rp.ShardGroups[gi].Contains(ts) {
+					pre = &rp.ShardGroups[gi]
+					break
+				}
+			}
+		}
+		if pre == nil || e.exp.Rows[i].Acc == 0 {
+			continue
+		}
+		key := msti.Name + "," + e.conc.keyString(e.exp.Rows[i].Wkey)
+		if len(e.args.Sk) == 0 {
+			key = msti.Name + "," + e.hashKey(i)
+		}
+		for _, sh := range pre.Shards {
+			if sh.Min <= key && (sh.Max == "" || key < sh.Max) {
+				out[i] = sh.ID
+				break
+			}
+		}
+	}
+	return out
+}
+
 func (e *rtEnv) writeRows(res *rtResult, seed int64, id int) string {
 	n := len(e.exp.Rows)
 	e.crow = make([]rtCRow, n)
@@ -590,6 +632,10 @@ func (e *rtEnv) writeRows(res *rtResult, seed int64, id int) string {
 				return fmt.Sprintf("group %d hashes over %d shards, the setup says %d", sg.ID, len(idx), e.args.M)
 			}
 			key := e.hashKey(i)
+			if len(e.args.Sk) == 0 {
+				// points_writer.go strips the measurement name from the key only when a shard key is defined
+				key = msti.Name + "," + key
+			}
 			want := idx[xxhash.Sum64String(key)%uint64(len(idx))]
 			if pos != want {
 				return fmt.Sprintf("row %d %v: shard position %d, but xxhash(%q) mod %d selects position %d", i, e.crow[i].tags, pos, key, len(idx), want)
@@ -617,6 +663,8 @@ func (e *rtEnv) writeRows(res *rtResult, seed int64, id int) string {
 	}
 	e.store.sent = map[int64][]uint64{}
 	_ = e.pw.RetryWritePointRows(rtDB, rtRP, batch) // partial-write error when rows are rejected
+	e.extra = map[int]uint64{}
+	stale := e.staleCachePrediction(perm)
 	for i := 0; i < n; i++ {
 		sent := e.store.sent[int64(i)]
 		if e.exp.Rows[i].Acc == 0 {
@@ -625,9 +673,21 @@ func (e *rtEnv) writeRows(res *rtResult, seed int64, id int) string {
 			}
 			continue
 		}
-		if len(sent) != 1 || sent[0] != e.wshard[i] {
-			return fmt.Sprintf("row %d %v: written alone it goes to shard %d, in a batch of %d rows to %v", i, e.crow[i].tags, e.wshard[i], n, sent)
+		if len(sent) == 1 && sent[0] == e.wshard[i] {
+			continue
 		}
+		d := fmt.Sprintf("row %d %v t=%d: written alone it goes to shard %d, in a batch of %d rows to %v", i, e.crow[i].tags, e.exp.Rows[i].T, e.wshard[i], n, sent)
+		// deviation model "stale_group_cache" (F-C11-4): write_helper.go:createShardGroup keeps the previous row's
+		// group while it Contains() the timestamp, although a re-sharded group hides it
+		if len(sent) == 1 && stale[i] == sent[0] && stale[i] != 0 {
+			e.extra[i] = sent[0]
+			if res.f4 == "" {
+				res.f4 = d + " = the shard of the hidden pre-split group that the previous row of the batch had selected"
+			}
+			res.f4n++
+			continue
+		}
+		return d
 	}
 	// the shard groups that now exist are the ones the specification lists
 	rp, _ := e.data.RetentionPolicy(rtDB, rtRP)
@@ -988,6 +1048,8 @@ func (e *rtEnv) probe(res *rtResult, pa *rtProbeArgs, pe *rtProbeExp) rtProbeOut
 		res.Checks++
 		if !real[e.wshard[i]] {
 			missing = append(missing, i)
+		} else if x, ok := e.extra[i]; ok && !real[x] {
+			missing = append(missing, i)
 		}
 	}
 	if !rtSetEq(real, e.predict(&rtPrune{All: true}, influxql.MinTime, influxql.MaxTime)) {
@@ -1104,6 +1166,9 @@ func runRoutingCase(rc *rtCase) (res rtResult) {
 			res.Infra = "unknown action " + st.A
 			return
 		}
+	}
+	if res.f4n > 0 {
+		known["F-C11-4"] = &rtKnown{Finding: "F-C11-4", Count: res.f4n, Example: fmt.Sprintf("shard key %v range, bounds %v: %s", env.sortedSk(), env.args.Bounds, res.f4)}
 	}
 	ids := map[string]bool{}
 	for f, k := range known {
